@@ -262,7 +262,9 @@ class SchemaGen:
                 elif r < 0.8:
                     v = rng.random() < 0.5
                 else:
-                    v = rng.choice(["hello", "a b", "v1.2", "", "x_y-z"])
+                    # every supported escape occurs: position bookkeeping, lexing and literal emission all see them
+                    v = rng.choice(["hello", "a b", "v1.2", "", "x_y-z", "line\nbreak", "two\n\nbreaks\n", "tab\there", 'dq"uote', "it's",
+                                    "back\\slash", "cr\rlf\n", "// not a comment", "{ } ; = '"])
                 c = f.add(Const(self.pool.upper(), v))
                 if isinstance(v, int) and not isinstance(v, bool):
                     consts.append(c)
